@@ -344,7 +344,12 @@ impl TypeEnv {
         (constructor, ctor_ty)
     }
 
-    fn lookup_struct_constructor(&self, constr: &TastIdent) -> Option<(Constructor, tast::Ty)> {
+    /// The constructor of the struct of this name. `Name { field: .. }` is always a struct: a
+    /// variant of the same name (`struct Circle`, `enum Shape { Circle(Circle) }`) has no fields.
+    pub fn lookup_struct_constructor(
+        &self,
+        constr: &TastIdent,
+    ) -> Option<(Constructor, tast::Ty)> {
         self.structs.get(constr).map(|struct_def| {
             let base = tast::Ty::TStruct {
                 name: struct_def.name.0.clone(),
@@ -611,6 +616,13 @@ impl GlobalTypeEnv {
     ) -> Option<(Constructor, tast::Ty)> {
         self.type_env
             .lookup_constructor_with_namespace(enum_name, constr)
+    }
+
+    pub fn lookup_struct_constructor(
+        &self,
+        constr: &TastIdent,
+    ) -> Option<(Constructor, tast::Ty)> {
+        self.type_env.lookup_struct_constructor(constr)
     }
 
     pub fn is_trait(&self, name: &str) -> bool {
